@@ -108,13 +108,10 @@ impl Operation {
             Lor => U256::from(a != U256::ZERO || b != U256::ZERO),
             Shl => compute_shl_uint(a, b),
             Shr => compute_shr_uint(a, b),
-            // TODO test with conner case when it is possible to get the number
-            //      bigger then modulus
-            Bor => a.bitor(b),
+            // operands are below M < 2^254, so the raw result is below 2 * M
+            Bor => reduce_once(a.bitor(b)),
             Band => a.bitand(b),
-            // TODO test with conner case when it is possible to get the number
-            //      bigger then modulus
-            Bxor => a.bitxor(b),
+            Bxor => reduce_once(a.bitxor(b)),
             Idiv => {
                 if b == U256::ZERO {
                     U256::ZERO
@@ -410,6 +407,14 @@ fn compute_shl_uint(a: U256, b: U256) -> U256 {
         r - M
     } else {
         r
+    }
+}
+
+fn reduce_once(a: U256) -> U256 {
+    if a >= M {
+        a - M
+    } else {
+        a
     }
 }
 
